@@ -155,6 +155,25 @@ def rand_ops(rng, n, peers):
     return ops
 
 
+# values that reach a canon WITHOUT being a stored service result themselves (added after the seeded change
+# C03-canon-value-not-stored-for-projections was missed): lens projections, fold iterators, a canon pushed into another
+# stream, {key,value} pairs of a stream map -- the canon element's value must be in the value store of the produced data
+def derived_canon_script(rng):
+    a, b, c = rng.sample(["A", "B", "C"], 3)
+    src = rng.choice([
+        '(seq (call "@%s" ("s" "obj") [] o) (seq (ap o.$.%s $d) (ap o.$.l.[%d] $d)))' % (a, rng.choice(["f", "n", "l", "o"]), rng.randrange(2)),
+        '(seq (call "@%s" ("s" "arr") [] xs) (fold xs it (seq (ap it $d) (next it))))' % a,
+        '(seq (call "@%s" ("s" "arr2") [] xs) (fold xs it (seq (ap it.$.[0] $d) (next it))))' % a,
+        '(seq (seq (call "@%s" ("s" "tag") [] $e) (canon "@%s" $e #inner)) (seq (ap #inner $d) (ap #inner.$.[0] $d)))' % (a, a),
+        '(seq (call "@%s" ("s" "obj") [] o) (seq (seq (ap ("k1" o.$.f) %%m) (ap (7 o) %%m)) (seq (canon "@%s" %%m #%%cm) (seq (ap #%%cm.$.k1 $d) (ap #%%cm.$.[7].[0] $d)))))' % (a, a),
+    ])
+    tail = rng.choice([
+        '(seq (canon "@%s" $d #dc) (call "@%s" ("s" "args") [#dc]))' % (a, b),
+        '(seq (canon "@%s" $d #dc) (seq (call "@%s" ("s" "args") [#dc.$.[0]]) (call "@%s" ("s" "tag") [] z)))' % (b, c, a),
+    ])
+    return "(seq %s %s)" % (src, tail)
+
+
 def case_of(script, peers, ops, services, stream, seed):
     return {"script": script, "peers": airgen.PEERS[:peers], "init": 0, "services": services, "ops": ops, "oracles": ORACLES,
             "seed": seed, "stream": stream}
@@ -186,6 +205,8 @@ def gen_cases(rng, tier, escalate=False):
             prof = airgen.Profile(peers=3, depth=rng.choice([3, 4]), par_weight=8, recursive_streams=False)
             script, n = airgen.gen_script(rng, prof), 3
         cases.append(case_of(script, n, rand_ops(rng, rng.choice([10, 20]), n), SERVICES, "par", rng.randrange(1 << 30)))
+    for k in range((10 if quick else 80) * mul):
+        cases.append(case_of(derived_canon_script(rng), 3, rand_ops(rng, rng.choice([8, 14]), 3), SERVICES, "derived_canon", rng.randrange(1 << 30)))
     # recursive stream folds: the known finding (a third peer loses a foreign executed state; the carried signature breaks)
     for k in range((4 if quick else 30) * mul):
         if rng.random() < 0.5:
